@@ -386,6 +386,13 @@ class AnsiString:
         else:
             ansi_settings = _AnsiSettingPoint._scrub_ansi_settings(settings)
 
+        # Settings active at the end index before anything is removed, in order of precedence
+        settings_at_end = []
+        for idx, _, current_settings in _AnsiSettingsIterator(self._fmts):
+            if idx > end:
+                break
+            settings_at_end = list(current_settings)
+
         removed_settings = []
         for idx, settings_point, current_settings in _AnsiSettingsIterator(self._fmts):
             if idx < start:
@@ -412,8 +419,19 @@ class AnsiString:
                         del settings_point.rem[i]
 
                 if idx == end:
-                    if end != len(self._s):
-                        settings_point.add += removed_settings
+                    if end != len(self._s) and removed_settings:
+                        # Restore the removed settings with the precedence they had before: everything that was
+                        # on top of the first restored setting must be (re-)added after it
+                        first = min(__class__._find_setting_reference(s, settings_at_end) for s in removed_settings)
+                        restored = []
+                        for s in settings_at_end[first:]:
+                            if (
+                                __class__._find_setting_reference(s, removed_settings) < 0
+                                and __class__._find_setting_reference(s, settings_point.add) < 0
+                            ):
+                                settings_point.rem.append(s)
+                            restored.append(s)
+                        settings_point.add = restored
                 else:
                     for i in reversed(range(len(settings_point.add))):
                         if ansi_settings is None or settings_point.add[i] in ansi_settings:
